@@ -1,6 +1,7 @@
 import Driver.C09
 import Driver.C06
 import Driver.Broker
+import Driver.C14
 /-!
 `sfdriver`: executable models behind a line protocol.  One request per line
 (`<model> <op> <args…>`), one reply line per request.  Core-only (no Mathlib below this file).
@@ -11,6 +12,7 @@ def dispatch (ws : List String) : String :=
   | "c09" :: rest => Driver.C09.handle rest
   | "c06" :: rest => Driver.C06.handle rest
   | "broker" :: rest => Driver.Broker.handle rest
+  | "c14" :: rest => Driver.C14.handle rest
   | _ => "bad-op"
 
 partial def loop (hin : IO.FS.Stream) (hout : IO.FS.Stream) : IO Unit := do
